@@ -62,7 +62,7 @@ RUNS = [
     # result rows of an earlier (uncached) run of B1 fed back as input rows
     {"name": "B1-refed", "inputs": B1, "bs": None, "t": 0, "col": "reaction", "refeed_of": 0},
 ]
-QUICK_RUNS = [0, 1, 3, 4, 6, 9, 12, 13, 14, 15, 16, 17, 18, 19, 20, 21, 22]
+QUICK_RUNS = [0, 1, 3, 4, 6, 8, 9, 12, 13, 14, 15, 16, 17, 18, 19, 20, 21, 22]
 
 _bal = {}
 _ref = {}
